@@ -6,6 +6,7 @@
 package main
 
 import (
+	"encoding/binary"
 	"bytes"
 	"fmt"
 	"io"
@@ -504,6 +505,47 @@ func run(r *mon.Run) {
 			}
 		}
 
+		// (2c) b1 variants values whose number of possible keys overflows 64 bits: 64 two-value axes (2^64 wraps to 0,
+		// "needing" an index value of one element), 63 axes (2^63), 32 four-value axes, products just above the reader's
+		// own limit - with as many (offset, length) pairs as the WRAPPED count would ask for
+		if bi == 0 && r.Shard == 0 {
+			craft := func(vv string, pairs int) []byte {
+				hdr := rcbor.Cat(rcbor.MapHead(1), rcbor.Bytes([]byte(":status")), rcbor.Bytes([]byte("200")))
+				resp := rcbor.Cat(rcbor.ArrayHead(2), rcbor.Bytes(hdr), rcbor.Bytes([]byte("payload")))
+				responses := rcbor.Cat(rcbor.ArrayHead(1), resp)
+				okEntry := rcbor.Cat(rcbor.Text("https://a.example/ok"), rcbor.ArrayHead(3), rcbor.Bytes(nil), rcbor.Uint(1), rcbor.Uint(uint64(len(resp))))
+				vEntry := rcbor.Cat(rcbor.Text("https://a.example/v"), rcbor.ArrayHead(1+2*pairs), rcbor.Bytes([]byte(vv)))
+				for k := 0; k < pairs; k++ {
+					vEntry = rcbor.Cat(vEntry, rcbor.Uint(1), rcbor.Uint(uint64(len(resp))))
+				}
+				index := rcbor.Cat(rcbor.MapHead(2), okEntry, vEntry)
+				sl := rcbor.Cat(rcbor.ArrayHead(4), rcbor.Text("index"), rcbor.Uint(uint64(len(index))), rcbor.Text("responses"), rcbor.Uint(uint64(len(responses))))
+				b := rcbor.Cat([]byte{0x86, 0x48, 0xf0, 0x9f, 0x8c, 0x90, 0xf0, 0x9f, 0x93, 0xa6}, []byte{0x44, 'b', '1', 0, 0}, rcbor.Text("https://a.example/ok"), rcbor.Bytes(sl), rcbor.ArrayHead(2), index, responses)
+				total := make([]byte, 8)
+				binary.BigEndian.PutUint64(total, uint64(len(b)+9))
+				return rcbor.Cat(b, rcbor.Bytes(total))
+			}
+			axes := func(n, size int) string {
+				var parts []string
+				for a := 0; a < n; a++ {
+					p := fmt.Sprintf("ax%d", a)
+					for v := 0; v < size; v++ {
+						p += fmt.Sprintf(";v%d", v)
+					}
+					parts = append(parts, p)
+				}
+				return strings.Join(parts, ", ")
+			}
+			type vc struct {
+				name  string
+				vv    string
+				pairs int
+			}
+			for _, c := range []vc{{"control-2x2", axes(2, 2), 4}, {"64x2/0-pairs", axes(64, 2), 0}, {"63x2/0-pairs", axes(63, 2), 0}, {"65x2/0-pairs", axes(65, 2), 0}, {"32x4/0-pairs", axes(32, 4), 0},
+				{"64x2/1-pair", axes(64, 2), 1}, {"14x2/4-pairs", axes(14, 2), 4}, {"16x16/0-pairs", axes(16, 16), 0}, {"62x2+1x4/0-pairs", axes(62, 2) + ", z;a;b;c;d", 0}} {
+				judge(r, craft(c.vv, c.pairs), "variants-key-count", c.name, c.name == "control-2x2", 1)
+			}
+		}
 		// (3) sections: permuted, duplicated, dropped, unknown inserted
 		order := s.DefaultOrder()
 		if r.Mine(bi + 1) {
